@@ -111,6 +111,34 @@ func check(c Case) error {
 	if toks[0].Lit != "a" || toks[len(toks)-1].Lit != "b" || toks[1].Tok != token.DEFINE {
 		return fmt.Errorf("surrounding code changed: %q", src)
 	}
+	if c.Kind == "string" {
+		// the string is also what the File's settings are keyed by (a dot-import hint, a name hint,
+		// the File's own path): a literal is still a literal
+		s := string(c.S)
+		for _, fr := range []*recipe.File{
+			{Ctor: "NewFile", Args: []recipe.Text{"p"}, Ops: []recipe.FileOp{{Op: "ImportAlias", Args: []recipe.Text{c.S, "."}}}},
+			{Ctor: "NewFile", Args: []recipe.Text{"p"}, Ops: []recipe.FileOp{{Op: "ImportName", Args: []recipe.Text{c.S, "x"}}, {Op: "PackagePrefix", Args: []recipe.Text{"pkg"}}}},
+			{Ctor: "NewFilePathName", Args: []recipe.Text{c.S, "p"}},
+		} {
+			fr.Ops = append(fr.Ops, recipe.FileOp{Op: "NoFormat"})
+			fr.Body = []*recipe.Node{recipe.Id("a").C("Op", ":=").Then(lit.Clone())}
+			var out string
+			if perr := hx.Safe(func() error {
+				f := (&recipe.Builder{}).File(fr)
+				buf := &strings.Builder{}
+				if err := f.Render(buf); err != nil {
+					return err
+				}
+				out = buf.String()
+				return nil
+			}); perr != nil {
+				return fmt.Errorf("Lit(%q) in a File whose settings name the same string: %v", s, perr)
+			}
+			if !strings.HasSuffix(out, text) {
+				return fmt.Errorf("Lit(%q) renders %q alone but, in a File whose settings (%s) name the same string, the File renders %q", s, text, recipe.JSON(fr.Ops), out)
+			}
+		}
+	}
 	if c.Kind == "byte" {
 		return nil
 	}
